@@ -114,8 +114,8 @@ impl<'c> FW<'c> {
         use FOp::*;
         Some(match op {
             ToConsumer { .. } | ADrop { .. } | MapNew { .. } | MapOld { .. } => Kind::Arr,
-            CNext { .. } | CNextBack { .. } | CAsSlice { .. } | CSwap { .. } | CClone { .. } | CDebug { .. } | CAssertEmpty { .. } | CDrop { .. } | CForget { .. } => Kind::Cons,
-            BPush { .. } | BObserve { .. } | BSwap { .. } | BClone { .. } | BDebug { .. } | BBuild { .. } | BInferLen { .. } | BDrop { .. } | BForget { .. } => Kind::Build,
+            CCloneFrom { .. } | CNext { .. } | CNextBack { .. } | CAsSlice { .. } | CSwap { .. } | CClone { .. } | CDebug { .. } | CAssertEmpty { .. } | CDrop { .. } | CForget { .. } => Kind::Cons,
+            BCloneFrom { .. } | BPush { .. } | BObserve { .. } | BSwap { .. } | BClone { .. } | BDebug { .. } | BBuild { .. } | BInferLen { .. } | BDrop { .. } | BForget { .. } => Kind::Build,
             _ => return None,
         })
     }
@@ -123,7 +123,7 @@ impl<'c> FW<'c> {
         use FOp::*;
         match op {
             ToConsumer { o } | CNext { o } | CNextBack { o } | CAsSlice { o } | CSwap { o, .. } | CClone { o, .. } | CDebug { o } | CAssertEmpty { o } | CDrop { o, .. }
-            | CForget { o } | BPush { o, .. } | BObserve { o } | BSwap { o, .. } | BClone { o, .. } | BDebug { o } | BBuild { o } | BInferLen { o, .. } | BDrop { o, .. }
+            | CForget { o } | CCloneFrom { o, .. } | BCloneFrom { o, .. } | BPush { o, .. } | BObserve { o } | BSwap { o, .. } | BClone { o, .. } | BDebug { o } | BBuild { o } | BInferLen { o, .. } | BDrop { o, .. }
             | BForget { o } | ADrop { o, .. } | MapNew { o, .. } | MapOld { o, .. } => *o,
             _ => 0,
         }
@@ -146,6 +146,11 @@ impl<'c> FW<'c> {
         use FOp::*;
         let slot = Self::kind_of(op).and_then(|k| self.m.resolve(k, Self::slot_arg(op)));
         let held_before = self.m.held.len();
+        let cf_src = match (op, slot) {
+            (CCloneFrom { c, .. }, Some(d)) => self.m.clone_from_source(Kind::Cons, d, *c),
+            (BCloneFrom { c, .. }, Some(d)) => self.m.clone_from_source(Kind::Build, d, *c),
+            _ => None,
+        };
         let exp = self.m.apply(op);
         if exp == Exp::Skip {
             return Ok(());
@@ -264,6 +269,42 @@ impl<'c> FW<'c> {
                     }
                     _ => unreachable!(),
                 }
+            }
+            CCloneFrom { .. } | BCloneFrom { .. } => {
+                let (d, s2) = (slot.unwrap(), cf_src.unwrap());
+                let is_c = matches!(op, CCloneFrom { .. });
+                let props = if is_c { CONS } else { BUILD };
+                // take the destination out so that source and destination can be borrowed together
+                let Some(mut dst) = self.objs[d].take() else { return self.fail(ALL, "harness-desync", what.to_string()) };
+                let r = {
+                    let src = self.objs[s2].as_ref();
+                    guard(|| match (&mut dst, src) {
+                        (Obj::Cons(a), Some(Obj::Cons(b))) => {
+                            macro_rules! same_n {
+                                ($($V:ident),*) => { match (a, b) { $( (AnyCons::$V(a), AnyCons::$V(b)) => a.clone_from(b), )* _ => {} } };
+                            }
+                            same_n!(V0, V1, V2, V3, V5, V8, V33)
+                        }
+                        (Obj::Build(a), Some(Obj::Build(b))) => {
+                            macro_rules! same_n {
+                                ($($V:ident),*) => { match (a, b) { $( (AnyBuild::$V(a), AnyBuild::$V(b)) => a.clone_from(b), )* _ => {} } };
+                            }
+                            same_n!(V0, V1, V2, V3, V5, V8, V33)
+                        }
+                        _ => {}
+                    })
+                };
+                let got = match &dst {
+                    Obj::Cons(c) => on_any!(AnyCons, c, |x| ids_of(x.as_slice())),
+                    Obj::Build(b) => on_any!(AnyBuild, b, |x| ids_of(x.as_slice())),
+                    _ => Vec::new(),
+                };
+                self.objs[d] = Some(dst);
+                self.expect_ok(what, r)?;
+                let Exp::NewObj { ids, parents } = &exp else { unreachable!() };
+                self.check_ids(props, what, &got, ids)?;
+                self.check_parents(props, what, ids, parents.as_ref().unwrap())?;
+                self.ctx.cov.probe("clone_from-into-nonempty-destination");
             }
             CDebug { .. } | BDebug { .. } => {
                 let s = slot.unwrap();
